@@ -28,6 +28,7 @@ PURE = (
     "core::num::saturating_sub", "core::num::saturating_add", "core::num::saturating_mul", "core::num::saturating_pow",
     "core::num::checked_sub", "core::num::checked_add", "core::num::checked_mul", "core::num::checked_div",
     "core::num::wrapping_sub", "core::num::wrapping_add", "core::num::wrapping_mul", "core::num::abs_diff",
+    "core::num::overflowing_sub", "core::num::overflowing_add", "core::num::wrapping_abs", "core::num::unsigned_abs",
     "core::num::pow", "core::num::div_ceil", "core::num::next_power_of_two", "core::num::is_power_of_two",
     "std::cmp::Ord::max", "std::cmp::Ord::min", "std::cmp::max", "std::cmp::min", "core::cmp::Ord::max", "core::cmp::Ord::min",
     "std::num::NonZero::get", "core::str::len", "std::string::String::len", "core::slice::len", "std::vec::Vec::len",
@@ -239,7 +240,7 @@ def show(e):
         return "%s%d%s" % (k, e[1], "".join("." + str(f) for f in e[2]))
     if k == "call":
         return "%s(%s)" % (e[1].rsplit("::", 1)[-1], ", ".join(show(a) for a in e[2]))
-    if k == "site":
+    if k == "site" and len(e) == 3:
         return "%s@bb%d" % (e[1].rsplit("::", 1)[-1], e[2])
     if k == "payload":
         return "(%s as %s).%s" % (show(e[3]), e[1], e[2])
@@ -270,7 +271,19 @@ def show(e):
         return "discr(%s)" % show(e[1])
     if k == "opaque":
         return "<%s>" % e[1]
-    if len(e) == 3:
+    if k == "cell":
+        return "*%s@bb%s%s" % (e[1][1].rsplit("::", 1)[-1], e[1][2], "".join("." + str(f) for f in e[2]))
+    if k in ("ptr", "sptr"):
+        return "&[%s%s]" % (e[1][0] if not isinstance(e[1][0], tuple) else e[1][0][1].rsplit("::", 1)[-1], "".join("." + str(f) for f in e[1][1]))
+    if k == "after":
+        return "<after %s@bb%s>" % (e[1].rsplit("::", 1)[-1], e[2])
+    if k == "undef":
+        return "undef(_%s)" % e[1]
+    if k == "upd":
+        return "%s{%s=%s}" % (show(e[1]), ".".join(str(f) for f in e[2]), show(e[3]))
+    if k == "site" and len(e) > 3:
+        return "%s@bb%d(%s)" % (e[1].rsplit("::", 1)[-1], e[2], ", ".join(show(a) for a in e[3]))
+    if len(e) == 3 and isinstance(e[1], tuple) and isinstance(e[2], tuple):
         return "(%s %s %s)" % (show(e[1]), k, show(e[2]))
     return repr(e)
 
